@@ -2144,13 +2144,15 @@ lx_dispatch_arm_harness!(2, 12, 6, lx_stat_opts_arm_percent_k2, stat_opts_modes,
 // =============================================================================================
 // Macro strings / operands in arithmetic-logical expressions (C06, C13): what the scanner hands out
 
+macro_rules! lx_eval_string_harness {
+    ($k:literal, $b:literal, $uw:literal, $name:ident) => {
 lx_harness! {
-    #[kani::unwind(5)]
+    #[kani::unwind($uw)]
     #[kani::stub(try_parse_decimal, stub_try_parse_decimal)]
     #[kani::stub(try_parse_hex_integer, stub_try_parse_hex)]
     #[kani::stub(is_macro_stat, stub_is_macro_stat)]
-    fn lx_eval_string_k3() {
-        let t = Txt::<3, 16>::any(PFX, &[]);
+    fn $name() {
+        let t = Txt::<$k, $b>::any(PFX, &[]);
         kani::assume(t.n >= 1);
         let flags = any_eval_flags();
         let pnl: u32 = kani::any();
@@ -2164,7 +2166,7 @@ lx_harness! {
         let pre = snapshot(&lx, &t);
         lx.lex_macro_string_in_macro_eval_context(flags, toc);
         let pi = check_common(&lx, &t, &pre);
-        check_progress::<3, 16, 2>(&lx, &t, &pre, pi);
+        check_progress::<$k, $b, 2>(&lx, &t, &pre, pi);
         let tn = shadow::tok_n();
         assert!(tn >= pre.tok_n + 1 && tn <= pre.tok_n + 2 && lx.errors.len() == pre.err_n && lx.mode_stack.len() == pre.stack_len, "C13: an operand scan yields the operand and/or its trailing blanks, nothing else");
         let last = shadow::tok(tn - 1);
@@ -2172,7 +2174,7 @@ lx_harness! {
         let all_ws = |s: usize, e: usize| {
             let mut ok = true;
             let mut i = 0;
-            while i < 3 {
+            while i < $k {
                 if i >= s && i < e && !t.ch[i].is_whitespace() {
                     ok = false;
                 }
@@ -2197,7 +2199,7 @@ lx_harness! {
             if op.token_type != TokenType::MacroString {
                 // numeric operands are standalone: only numeric-literal characters
                 let mut i = 0;
-                while i < 3 {
+                while i < $k {
                     if i >= s && i < e {
                         assert!(t.ch[i].is_ascii_hexdigit() || matches!(t.ch[i], '.' | '+' | '-' | 'x' | 'X'), "C13/C08: a numeric operand token contains a non-numeric character");
                     }
@@ -2211,6 +2213,10 @@ lx_harness! {
         std::mem::forget(lx);
     }
 }
+    };
+}
+lx_eval_string_harness!(3, 16, 5, lx_eval_string_k3);
+lx_eval_string_harness!(2, 12, 5, lx_eval_string_k2);
 
 /// is_macro_stat hashes the identifier (phf/SipHash): arbitrary answer.
 pub(crate) fn stub_is_macro_stat(_input: &str) -> bool {
@@ -2459,3 +2465,4 @@ lx_harness! {
         std::mem::forget(lx);
     }
 }
+include!(concat!(env!("SAS_LEXER_VERIF_DIR"), "/harness/lexer2.rs"));
